@@ -56,8 +56,9 @@ contract(
 )
 contract(
     f"{M}:_create_warning_node",
-    requires=[], ensures=["result.kind == 'system_message'", "result.text == msg", "result.parent is None", "len(result.children) == 0"],
-    returns="Element", modifies=["fresh1"], trusted=True,
+    # (the node holds the message in a paragraph of its own: it is not childless, and more than one node is allocated)
+    requires=[], ensures=["fresh(result)", "result.kind == 'system_message'", "result.text == msg", "result.parent is None"],
+    returns="Element", modifies=["fresh"], trusted=True,
 )
 assumed("Sphinx logging / _create_warning_node", "sphinx's logger applies suppress_warnings itself when it emits; _create_warning_node builds a "
         "system_message node carrying the message (nodes.system_message(msg, ...), docutils)", "sphinx.util.logging")
@@ -67,8 +68,8 @@ contract(
     "ext:Reporter.warning",
     types={"__params__": ["self", "message"], "self": "Reporter", "message": "str", "__ignore_starargs__": True},
     requires=[],
-    ensures=["result.kind == 'system_message'", "result.text == message", "result.parent is None", "len(result.children) == 0"],
-    returns="Element", modifies=["fresh1"], trusted=True,
+    ensures=["fresh(result)", "result.kind == 'system_message'", "result.text == message", "result.parent is None"],
+    returns="Element", modifies=["fresh"], trusted=True,
 )
 assumed("Reporter.warning", "document.reporter.warning(msg, line= / base_node=) returns a new system_message node carrying msg (and logs it); "
         "the position keywords do not change that", "docutils.utils")
